@@ -4,6 +4,7 @@ import (
 	"encoding/json"
 	"fmt"
 	"sort"
+	"strings"
 	"testing"
 
 	"pgregory.net/rapid"
@@ -22,6 +23,10 @@ type C11Case struct {
 	// Picks select which renameable occurrences are renamed (indices modulo the number of candidates)
 	Picks   []int  `json:"picks"`
 	NewName string `json:"newName"`
+	// CloseEdit k > 0: before the renames, file k-1 gets an unsaved edit (Shift blank lines inserted at
+	// its top) and is closed again without saving: its text on disk is what counts from then on
+	CloseEdit int `json:"closeEdit,omitempty"`
+	Shift     int `json:"shift,omitempty"`
 }
 
 func init() { register("C11", checkC11) }
@@ -41,6 +46,10 @@ func genC11(t *rapid.T) C11Case {
 		c.Picks = append(c.Picks, rapid.IntRange(0, 1<<20).Draw(t, "pick"))
 	}
 	c.NewName = rapid.SampledFrom([]string{"zq", "renamed_variable_9", "Z", "new_name1"}).Draw(t, "newName")
+	if rapid.IntRange(0, 2).Draw(t, "closeEdit") == 0 {
+		c.CloseEdit = rapid.IntRange(1, len(c.WS.Files)).Draw(t, "closeEditFile")
+		c.Shift = rapid.IntRange(1, 3).Draw(t, "shift")
+	}
 	return c
 }
 
@@ -105,6 +114,9 @@ func checkC11(c C11Case, env *Env) *Violation {
 				excludedIn(env)
 				continue
 			}
+			if c.CloseEdit == fi+1 {
+				continue // a client asks for renames in open documents only
+			}
 			cands = append(cands, cand{fi, o})
 		}
 	}
@@ -122,6 +134,11 @@ func checkC11(c C11Case, env *Env) *Violation {
 	allOn := harness.J(harness.AllOn())
 	req := &proto.Request{Cmd: "session", Files: c.WS.protoFiles(), InitOptions: allOn}
 	req.Steps = c.WS.openAll()
+	if c.CloseEdit > 0 && c.CloseEdit <= len(c.WS.Files) {
+		f := c.WS.Files[c.CloseEdit-1]
+		req.Steps = append(req.Steps, harness.DidChangeFull(f.Path, 2, strings.Repeat("\n", c.Shift)+f.Text), harness.DidClose(f.Path))
+		env.Stats.Class("rename-after-unsaved-edit-and-close")
+	}
 	type rq struct {
 		cand cand
 		step int
